@@ -58,6 +58,9 @@ def impl_info(file, line, col, line2, col2):
     if ls is None or line > len(ls):
         return None
     text = ls[line - 1]
+    if file.startswith('/') and '\t' in text[:col + 2]:
+        # external macro source indented with tabs: rustc columns count a tab as one character
+        pass
     seg = text[col - 1:col2 - 1] if line == line2 else text[col - 1:]
     if seg.startswith('impl') or seg.startswith('unsafe impl'):
         # gather the header up to '{'
@@ -96,8 +99,19 @@ def impl_info(file, line, col, line2, col2):
         else:
             tr, ty = None, hdr
         selfhead = _head(ty)
-        return {'trait': _head(tr) if tr else None, 'self': selfhead, 'generic_self': selfhead in gparams,
+        info = {'trait': _head(tr) if tr else None, 'self': selfhead, 'generic_self': selfhead in gparams,
                 'derive': False, 'trait_full': tr.strip() if tr else None, 'self_full': ty.strip()}
+        if '$' in ty:
+            # impl inside a macro_rules! body of another crate (impl Trait for $name): the self type is only visible in
+            # the signatures of the generated functions
+            info['macro_external'] = True
+        return info
+    mm = re.match(r'\s*[A-Za-z_][A-Za-z0-9_:]*!\s*[\{\(]\s*(?:#\[[^\]]*\]\s*)*(?:pub(?:\([a-z]+\))? )?struct ([A-Za-z0-9_]+)', seg)
+    if mm:
+        # item-generating macro (construct_uint! { pub struct U256(4); }): inherent and trait impls of the new type all
+        # carry the macro call site; the trait cannot be recovered from the source
+        return {'trait': None, 'self': mm.group(1), 'generic_self': False, 'derive': False, 'trait_full': None,
+                'self_full': mm.group(1), 'macro': True}
     # derive attribute: seg is the derive name; the type is the next struct/enum/union item
     name = seg.strip()
     k = line - 1
